@@ -953,6 +953,22 @@ def conc_engine(pid, spec, tier, seed, workdir, res):
     if len(res['samples']) < 3 and cases:
         cid = sorted(cases)[0]
         res['samples'].append(dict(case=cid, schedule=[l for l in cases[cid].splitlines() if l.startswith('SCHED')][:3]))
+    # directed scenario: a 304 arriving after the entry it validated was replaced
+    rcl, logl = run_harness('TestLate304', {}, out, timeout=600)
+    lp = os.path.join(out, 'late304.txt')
+    if rcl != 0 or not os.path.exists(lp):
+        res['errors'].append('late-304 scenario failed to run: ' + logl[-800:])
+    else:
+        for line in open(lp):
+            res['evaluations'] += 1
+            res['nontrivial'].add(hashlib.sha1(line.encode()).hexdigest())
+            kinds['scenario:late-304'] = kinds.get('scenario:late-304', 0) + 1
+            if line.split()[-1] == 'BAD':
+                code = 'C16:late-304-merged'
+                if not known_open(pid, code, known):
+                    res['violations'].append(dict(kind='monitor', code=code, case='late304',
+                                                  payload=dict(scenario=line.strip(), how='harness/conc_test.go TestLate304: GET (stored), GET in the stale-while-revalidate window with the background 304 held at the origin, '
+                                                               'POST (invalidates), GET (successor stored), the 304 released, GET: its header fields / ETag and its body are of different generations')))
     # (b) free-running stress under the race detector
     ok, blog, _ = build_race_harness()
     if not ok:
